@@ -15,38 +15,52 @@
 (***************************************************************************)
 EXTENDS Integers, Sequences, FiniteSets, TLC, Json
 
-CONSTANTS Fronts, ObjAtoms, ConKinds, MaxAdds
+CONSTANTS Fronts, ObjAtoms, ConKinds, MaxAdds,
+          NewVarBehindAux   \* TRUE: Model.dvar allocates at self.last (the code); FALSE: right after the last declared variable
 
 \* what each layer can encode
 Level(f) == CASE f = "lp" -> 1 [] f = "socp" -> 2 [] f \in {"gcp", "ro"} -> 3
-Need(k) == CASE k \in {"lin", "abs"} -> 1 [] k \in {"norm2", "square", "sumsqr", "power3"} -> 2 [] k = "exp" -> 3
+Need(k) == CASE k \in {"lin", "abs", "newvar"} -> 1 [] k \in {"norm2", "square", "sumsqr", "power3"} -> 2 [] k \in {"exp", "softplus", "pnorm25"} -> 3
 \* atoms whose encoding allocates auxiliary variables / auxiliary bounds
-AuxVars(k) == CASE k = "lin" -> 0 [] k = "abs" -> 0 [] k = "norm2" -> 3 [] k = "square" -> 6 [] k = "sumsqr" -> 4 [] k = "power3" -> 4 [] k = "exp" -> 4
+AuxVars(k) == CASE k = "lin" -> 0 [] k = "newvar" -> 0 [] k = "softplus" -> 4 [] k = "pnorm25" -> 6 [] k = "abs" -> 0 [] k = "norm2" -> 3 [] k = "square" -> 6 [] k = "sumsqr" -> 4 [] k = "power3" -> 4 [] k = "exp" -> 4
 AuxBounds(k) == k \in {"square", "sumsqr", "norm2", "power3"}
 
 VARIABLES front, obj, decl,     \* ghost: the declaration (sequence of constraint kinds)
           persistent,           \* number of bound objects in the model's persistent list
           auxb, auxcols,        \* auxiliary bounds / columns of the LAST formulation
           formulated,           \* the declaration the cached formula was compiled from
+          ucols, dead,          \* user columns; columns left unused between user variables (see AddVar)
+          stale,                \* persistent items that still name auxiliary columns of an EARLIER formulation (gcp: exp_constr of softplus / float p-norm)
+          aliased,              \* a user variable was placed on a column that a stale item names
           hist
-vars == <<front, obj, decl, persistent, auxb, auxcols, formulated, hist>>
+vars == <<front, obj, decl, persistent, auxb, auxcols, formulated, ucols, dead, stale, aliased, hist>>
 
 Init == /\ front \in Fronts /\ obj \in {o \in ObjAtoms : Need(o) <= Level(front)}
         /\ decl = <<>> /\ persistent = 1 /\ auxb = 0 /\ auxcols = 0 /\ formulated = <<"none">> /\ hist = <<>>
+        /\ ucols = 2 /\ dead = 0 /\ stale = FALSE /\ aliased = FALSE
 
 Add(k) == /\ Len(decl) < MaxAdds /\ Need(k) <= Level(front)
           /\ decl' = Append(decl, k) /\ hist' = Append(hist, [act |-> "add", kind |-> k])
-          /\ UNCHANGED <<front, obj, persistent, auxb, auxcols, formulated>>
+          \* a variable declared after a formulation is allocated at self.last, i.e. BEHIND the auxiliary block of that
+          \* formulation: the block becomes dead columns, and no stale item can name the new variable's column
+          /\ IF k = "newvar" THEN ucols' = ucols + 1 /\ dead' = dead + auxcols /\ aliased' = (aliased \/ (stale /\ ~NewVarBehindAux))
+                           ELSE UNCHANGED <<ucols, dead, aliased>>
+          /\ UNCHANGED <<front, obj, persistent, auxb, auxcols, formulated, stale>>
 \* do_math: the per-formulation lists are rebuilt from the declaration; the persistent list is untouched
 Formulate == /\ formulated # decl
              /\ auxcols' = AuxVars(obj) + (IF decl = <<>> THEN 0 ELSE LET S[i \in 0..Len(decl)] == IF i = 0 THEN 0 ELSE S[i - 1] + AuxVars(decl[i]) IN S[Len(decl)])
              /\ auxb' = (IF AuxBounds(obj) THEN 1 ELSE 0) + Cardinality({i \in 1..Len(decl) : AuxBounds(decl[i])})
              /\ formulated' = decl /\ hist' = Append(hist, [act |-> "solve", kind |-> ""])
-             /\ UNCHANGED <<front, obj, decl, persistent>>
+             \* a bare gcp model appends the exponential cones of softplus / float p-norm items to its persistent list at
+             \* every formulation: they name auxiliary columns of THIS formulation and survive the next one
+             /\ stale' = (stale \/ (front = "gcp" /\ \E i \in 1..Len(decl) : decl[i] \in {"softplus", "pnorm25"}))
+             /\ UNCHANGED <<front, obj, decl, persistent, ucols, dead, aliased>>
 Next == Formulate \/ \E k \in ConKinds : Add(k)
 Spec == Init /\ [][Next]_vars
 
 \* C09/C19: a formulation never writes into the user's persistent lists, so the incremental model IS the fresh one
 PersistentUntouched == persistent = 1
+\* ... and a later variable never shares a column with something an earlier formulation left behind
+NoAliasing == ~aliased
 Export == (formulated = decl /\ Len(decl) >= 1 /\ Len(hist) >= 3) => PrintT(ToJson([front |-> front, obj |-> obj, hist |-> hist]))
 =============================================================================
